@@ -93,11 +93,18 @@ def plans(prop, rng, S, clean):
         f = rng.choice((7, 7, 7, 1, 2, 3, 4, 5, 6))  # the claim holds under every protocol mask (the same for the uncut and the cut runs)
         return [{"filter": f, "quit": q, "parsing": 1, "handler": h}] + [{"filter": f, "quit": q, "parsing": 1, "cut": k, "handler": h} for k in range(n + 1)]
     if prop == "C11":
-        return [{"filter": 7, "quit": 1, "parsing": 1}] + [{"filter": f, "quit": 1, "parsing": p} for f in range(8) for p in (1, 0)]
+        return [{"filter": 7, "quit": 1, "parsing": 1}] + [{"filter": f, "quit": 1, "parsing": p} for f in range(8) for p in (1, 0)] + \
+            [{"filter": f, "quit": 2, "parsing": 1, "resume": 1} for f in (7, 1, 2, 4, rng.choice((3, 5, 6)))]  # errors raised, caught, same iterator resumed
     if prop == "C12":
         return [{"filter": 7, "quit": 0, "parsing": 1, "handler": 1}, {"filter": 7, "quit": 1, "parsing": 1, "handler": 1},
                 {"filter": 7, "quit": 2, "parsing": 1, "handler": 1}, {"filter": 7, "quit": 1, "parsing": 1, "handler": 0}]
     raise ValueError(prop)
+
+
+def _tail_frame(c, i, pl):
+    from ..common import frame
+
+    return frame(c, i, pl)
 
 
 def reader_check(ctx, prop):
@@ -152,7 +159,7 @@ def reader_check(ctx, prop):
             mix = cfgmix()
             usepool = inpool if (inpool and mix["msgmode"] != 0) else pool
             S, recipe = st.clean_stream(rng, usepool, nfr, noise_p=rng.choice((0.0, 0.3, 0.6)))
-            c = {"prop": prop, "S": S.hex(), "recipe": recipe, "plan": plans(prop, rng, S, True), "conf": 1 if prop in ("C06", "C07") else 0}
+            c = {"prop": prop, "S": S.hex(), "recipe": recipe, "plan": plans(prop, rng, S, True), "conf": 1 if prop in ("C06", "C07") and len(S) < 20000 else 0}
             c.update(mix)
             yield ("runs", c)
             if prop == "C06" and k % 4 == 0:
@@ -173,7 +180,7 @@ def reader_check(ctx, prop):
                 yield ("runs", b)
         for k in range(n_garb):
             S = st.garbage_stream(rng, pool, rng.randrange(2, 8) if prop == "C09" else rng.randrange(3, 40))
-            c = {"prop": prop, "S": S.hex(), "recipe": [], "plan": plans(prop, rng, S, False), "conf": 1 if prop == "C07" else 0}
+            c = {"prop": prop, "S": S.hex(), "recipe": [], "plan": plans(prop, rng, S, False), "conf": 1 if prop == "C07" and len(S) < 20000 else 0}
             c.update(cfgmix())
             yield ("runs", c)
             if prop in ("C12", "C08") and k % 3 == 0 and len(S) > 8:
@@ -208,7 +215,7 @@ def reader_check(ctx, prop):
         """every synthesised boundary frame of the pool (bare-LF sentences, zero-length / bad-CRC / truncated-type RTCM3, frames holding
         preambles, lengths at byte boundaries ...) is placed deterministically into a stream of THIS check, between ordinary frames:
         what a check sees must not depend on the luck of the random mixtures"""
-        sp = [x for x in st.special_frames(rng) if len(x[0]) <= (300 if prop in ("C09", "C11") else 7000)]
+        sp = [x for x in st.special_frames(rng) if len(x[0]) <= (300 if prop in ("C09", "C11") else 70000)]
         simple = [x for x in pool if len(x[0]) < 60 and x not in sp][:40]
         for k in range(0, len(sp), 3):
             parts = []
@@ -221,7 +228,7 @@ def reader_check(ctx, prop):
                 rec.append({"a": pos, "b": pos + len(fr), "p": pp, "ok": -1, "dd": "", "fam": ""})
                 pos += len(fr)
             S = b"".join(fr for fr, _ in parts)
-            c = {"prop": prop, "S": S.hex(), "recipe": rec, "plan": plans(prop, rng, S, True), "conf": 1 if prop in ("C06", "C07") else 0,
+            c = {"prop": prop, "S": S.hex(), "recipe": rec, "plan": plans(prop, rng, S, True), "conf": 1 if prop in ("C06", "C07") and len(S) < 20000 else 0,
                  "streamkind": (("min", "bytesio", "pipe") if prop == "C06" else ("min", "sock", "bytesio", "pipe", "sock"))[(k // 3) % (3 if prop == "C06" else 5)]}
             yield ("runs", c)
             if prop == "C06":
@@ -288,6 +295,22 @@ def reader_check(ctx, prop):
             S = b"".join(fr for fr, _ in parts)
             yield ("runs", {"prop": prop, "S": S.hex(), "recipe": rec, "plan": plans(prop, rng, S, True), "conf": 0, "streamkind": ("min", "bytesio")[k % 2]})
 
+    def gen_tails():
+        """streams whose LAST element is an unfinished frame of a particular shape: an NMEA sentence complete up to its checksum but
+        without line terminator (nothing / CR only; good and bad checksum), a UBX frame lacking only its checksum, an RTCM3 frame lacking
+        its CRC, a lone preamble"""
+        good = st.nmea_line("GNGLL,5327.04319,N,00214.41396,W,223232.00,A,A")
+        badck = good[:-4] + b"00\r\n"
+        u = _tail_frame(0x01, 0x03, bytes(16))
+        r = st.rtcm_frame(bytes(19))
+        tails = [good[:-2], good[:-1], badck[:-2], badck[:-1], good[:-5], u[:-2], u[:-1], u[:6], r[:-3], r[:-1], b"$G", b"\xb5\x62", b"\xd3\x00"]
+        simple = [x for x in pool if len(x[0]) < 60][:12]
+        for k, tl in enumerate(tails):
+            parts = [simple[k % len(simple)], simple[(k + 5) % len(simple)]]
+            S = b"".join(fr for fr, _ in parts) + tl
+            yield ("runs", {"prop": prop, "S": S.hex(), "recipe": [], "plan": plans(prop, rng, S, False), "conf": 1 if prop == "C07" else 0,
+                            "streamkind": ("min", "bytesio", "pipe", "sock")[k % (4 if prop != "C06" else 3)]})
+
     neg = negfn_for(prop)
     if prop == "C06":
         run_batch(ctx, MODULE, CFG, gen_library(), st.OBSERVERS, sigfn, neg, chunk=8000)
@@ -298,6 +321,8 @@ def reader_check(ctx, prop):
     if prop != "C09":
         run_batch(ctx, MODULE, CFG, gen_long(), st.OBSERVERS, sigfn, neg, chunk=4, neg_every=2)
     run_batch(ctx, MODULE, CFG, gen_odd(), st.OBSERVERS, sigfn, neg, chunk=40 if prop in ("C09", "C11") else 120, neg_every=7)
+    if prop != "C06":
+        run_batch(ctx, MODULE, CFG, gen_tails(), st.OBSERVERS, sigfn, neg, chunk=40, neg_every=5)
     run_batch(ctx, MODULE, CFG, gen_tour(), st.OBSERVERS, sigfn, neg, chunk=40 if prop in ("C09", "C11") else 120, neg_every=7)
     run_batch(ctx, MODULE, CFG, gen_big(), st.OBSERVERS, sigfn, neg, chunk=40 if prop in ("C09", "C11") else 120, neg_every=7)
     ctx.exhaustive = False
